@@ -602,6 +602,32 @@ def run(shard, rec, rng):
         # values and urlencoded keys: all of Unicode
         check_parts(W, rec, [("field", "k", None, None, c + "x" + c)], "BOUND", paths=("events",))
         check_urlencoded(W, rec, [(c, c), ("a" + c, ""), (c, "b" + c + "c")])
+    # ---- names and file names that contain per-cent sequences: plain text (only %22 is special, and excluded)
+    if shard["index"] % 4 == 2:
+        for nm in ("rate%0Aper%0Dday", "report%0A2024.txt", "a%0a%0d", "100%", "%41%25", "x%2Fy", "%C3%A9", "a%5C", "%0D%0A"):
+            rec.observe("names_with_percent_sequences")
+            check_parts(W, rec, [("file", nm, nm, "text/plain", nm.encode()), ("field", nm, None, None, nm)], "BOUND", paths=("events", "encode_multipart", "builder_multipart"))
+        # ---- history on one builder: one of form / files already filled, the other assigned as a whole
+        for order in ("files-then-form", "form-then-files"):
+            b = T.EnvironBuilder(method="POST")
+            try:
+                if order == "files-then-form":
+                    b.files.add_file("up", io.BytesIO(b"\x00upload\r\n"), "u.bin", "application/octet-stream")
+                    b.form = DS.MultiDict([("a", "1"), ("b", "\u00e9")])
+                else:
+                    b.form.add("a", "1")
+                    b.form.add("b", "\u00e9")
+                    fmd = DS.FileMultiDict()
+                    fmd.add_file("up", io.BytesIO(b"\x00upload\r\n"), "u.bin", "application/octet-stream")
+                    b.files = fmd
+                r = b.get_request(Request)
+                rec.case()
+                rec.nontrivial(("builder-wholesale-assignment", order))
+                rec.observe("builder_form_or_files_assigned_as_a_whole")
+                _compare_form_files(rec, {"path": "builder_wholesale_assignment", "order": order}, "builder_wholesale_assignment",
+                                    [("field", "a", None, None, "1"), ("field", "b", None, None, "\u00e9"), ("file", "up", "u.bin", "application/octet-stream", b"\x00upload\r\n")], r.form, r.files)
+            finally:
+                b.close()
     # ---- big values: the parser reads 64 KiB at a time; multi-byte characters must survive wherever the cut falls
     for i in range(cfg.get("big_values", 2)):
         pad = rng.randrange(0, 9)
